@@ -19,6 +19,7 @@ package c05
 import (
 	"context"
 	"fmt"
+	"runtime/debug"
 	"sort"
 	"strings"
 	"sync"
@@ -32,7 +33,7 @@ import (
 )
 
 func init() {
-	evid.Register(&evid.Check{ID: "C05", Level: "exploration", Run: run, QuickBudget: 150 * time.Second, ThoroughBudget: 15 * time.Minute})
+	evid.Register(&evid.Check{ID: "C05", Level: "exploration", Run: run, QuickBudget: 240 * time.Second, ThoroughBudget: 20 * time.Minute})
 }
 
 // ---- rule tables (read from the real client: which rules and categories exist per version) ----------
@@ -260,11 +261,14 @@ type CaseInfo struct {
 	Rule     string            `json:"planted_rule,omitempty"`
 	Site     string            `json:"site,omitempty"`
 	Config   string            `json:"config,omitempty"`
+	Entry    string            `json:"entry,omitempty"` // how the image reached the linter (entry.go); empty = source
 	Opts     LintOpts          `json:"lint_options"`
 	Expected []string          `json:"expected,omitempty"`
 	Got      []bufx.Annotation `json:"got,omitempty"`
 	Files    map[string]string `json:"files,omitempty"`
 	Note     string            `json:"note,omitempty"`
+	useVia   string
+	useSite  string
 }
 
 func buildImage(ctx context.Context, rd *Rendered) (bufimage.Image, error) {
@@ -476,6 +480,11 @@ type stats struct {
 	buildFailures                int
 	cliCases, cliWithAnnotations int
 	shapeEvals                   map[string]int // "<layout>/<use key or not>/<number of option keys>" -> evaluations
+	entryEvals                   map[string]int // "<entry>/<clean|planted>" -> evaluations
+	entryFired                   map[string]int // "<entry>/<rule>" -> expectations met
+	usageEvals                   map[string]int // "<entry>/<via>" and "<entry>/site/<site>" -> evaluations of members with a consumer file
+	cliCells                     map[string]int // "<input>/<config delivery>/<config>" -> CLI runs
+	cliDefaultSensitive          map[string]int // "<input>/<config>" -> CLI runs whose planted rule is not a default rule of every version
 }
 
 // countShape records the shape of the buf.yaml a case was linted with.
@@ -499,7 +508,8 @@ func (rn *runner) countShape(cfg *Config) {
 }
 
 func newStats() *stats {
-	return &stats{firedByRule: map[string]int{}, primaryByRule: map[string]int{}, opsByRule: map[string]map[string]bool{}, sitesByRule: map[string]map[string]bool{}, shapeEvals: map[string]int{}}
+	return &stats{firedByRule: map[string]int{}, primaryByRule: map[string]int{}, opsByRule: map[string]map[string]bool{}, sitesByRule: map[string]map[string]bool{}, shapeEvals: map[string]int{},
+		entryEvals: map[string]int{}, entryFired: map[string]int{}, usageEvals: map[string]int{}, cliCells: map[string]int{}, cliDefaultSensitive: map[string]int{}}
 }
 
 // Menu levels.
@@ -593,17 +603,33 @@ type runner struct {
 	st     *stats
 }
 
-func (rn *runner) lintAndJudge(info CaseInfo, rd *Rendered, image bufimage.Image, expects []Expect, cfg *Config, opLabel string) map[string]int {
+func (rn *runner) lintAndJudge(info CaseInfo, rd *Rendered, image bufimage.Image, expects []Expect, cfg *Config, opLabel string, entry string) map[string]int {
+	expects = expectsUnder(entry, expects)
 	anns, err := bufx.Lint(rn.ctx, cfg.lint, image)
 	rn.r.Eval(1)
 	if err != nil {
-		rn.r.Incomplete(fmt.Sprintf("lint returned a non-annotation error for %s %s %s: %v", info.Base, opLabel, cfg, err))
+		rn.r.Incomplete(fmt.Sprintf("lint returned a non-annotation error for %s %s %s (%s): %v", info.Base, opLabel, cfg, entry, err))
 		return nil
 	}
 	problems, fired := judge(rd, expects, cfg, anns, opLabel)
+	kind := "planted"
+	if opLabel == "clean" {
+		kind = "clean"
+	}
+	rn.st.mu.Lock()
+	rn.st.entryEvals[entry+"/"+kind]++
+	for rule, n := range fired {
+		rn.st.entryFired[entry+"/"+rule] += n
+	}
+	if info.useVia != "" {
+		rn.st.usageEvals[entry+"/"+info.useVia]++
+		rn.st.usageEvals[entry+"/site/"+info.useSite]++
+	}
+	rn.st.mu.Unlock()
 	for _, p := range problems {
 		ci := info
 		ci.Config = cfg.String()
+		ci.Entry = entry
 		ci.Opts = cfg.Opts
 		ci.Expected = expectStrings(rd, expects)
 		ci.Got = anns
@@ -613,22 +639,52 @@ func (rn *runner) lintAndJudge(info CaseInfo, rd *Rendered, image bufimage.Image
 	return fired
 }
 
-// runClean lints one clean workspace under every configuration.
-func (rn *runner) runClean(p Params, singleRules bool, pv int, shapes int) {
+// descriptorUses lists the `use` values of config version t for the "descriptors" entry (entry.go).
+// level 1: all rules in v2; level 2: the menu of the source entry (without the PROTOVALIDATE-including
+// configurations and the configuration shapes, which are about the configuration, not about the image).
+func (rn *runner) descriptorUses(t *RuleTable, rule string, menu, level int) []string {
+	switch level {
+	case 1:
+		if t.Version == "v2" {
+			return []string{"ALL"}
+		}
+	case 2:
+		return t.usesFor(rule, rn.r.Quick(), menu, 0, 0)
+	}
+	return nil
+}
+
+// descriptorImage builds the image of the "descriptors" entry (nil: harness problem, reported).
+func (rn *runner) descriptorImage(image bufimage.Image, what string) bufimage.Image {
+	out, err := viaDescriptors(image)
+	if err != nil {
+		rn.r.Incomplete(fmt.Sprintf("cannot rebuild the image from descriptors (harness): %s: %v", what, oneLine(err.Error())))
+		return nil
+	}
+	return out
+}
+
+// runClean lints one clean workspace under every configuration. rule / menu select the menu of usesFor
+// (rule "": no single rule); entries is the level of descriptorUses.
+func (rn *runner) runClean(p Params, rule string, menu int, singleRules bool, pv int, shapes int, entries int) {
 	spec := Build(p)
 	rd := spec.Render()
-	info := CaseInfo{Base: p.Key()}
+	info := CaseInfo{Base: p.Key(), useVia: p.UseVia, useSite: p.UseSite}
 	image, err := buildImage(rn.ctx, rd)
 	if err != nil {
-		rn.r.Incomplete(fmt.Sprintf("clean workspace %s does not build: %v", p.Key(), err))
+		rn.r.Incomplete(fmt.Sprintf("clean workspace %s does not build: %v", p.Key(), oneLine(err.Error())))
 		rn.st.mu.Lock()
 		rn.st.buildFailures++
 		rn.st.mu.Unlock()
 		return
 	}
+	var descImage bufimage.Image
+	if entries > 0 {
+		descImage = rn.descriptorImage(image, "clean "+p.Key())
+	}
 	n := 0
 	for _, t := range rn.tables {
-		uses := t.usesFor("", rn.r.Quick(), menuFull, pv, shapes)
+		uses := t.usesFor(rule, rn.r.Quick(), menu, pv, shapes)
 		if singleRules {
 			for _, id := range t.AllIDs {
 				if id != pvRule {
@@ -645,9 +701,20 @@ func (rn *runner) runClean(p Params, singleRules bool, pv int, shapes int) {
 				rn.r.Incomplete(err.Error())
 				continue
 			}
-			rn.lintAndJudge(info, rd, image, nil, cfg, "clean")
+			rn.lintAndJudge(info, rd, image, nil, cfg, "clean", entrySource)
 			rn.countShape(cfg)
 			n++
+		}
+		if descImage != nil {
+			for _, use := range rn.descriptorUses(t, rule, menu, entries) {
+				cfg, err := newConfig(t, use, p.Opts())
+				if err != nil {
+					rn.r.Incomplete(err.Error())
+					continue
+				}
+				rn.lintAndJudge(info, rd, descImage, nil, cfg, "clean", entryDescriptors)
+				n++
+			}
 		}
 	}
 	rn.r.Distinct(workspaceKey(rd, p.Opts()))
@@ -657,7 +724,7 @@ func (rn *runner) runClean(p Params, singleRules bool, pv int, shapes int) {
 }
 
 // runPlant applies one plant to a fresh clean workspace and lints it under every configuration.
-func (rn *runner) runPlant(p Params, pl Plant, idx int, menu int, pv int, shapes int) {
+func (rn *runner) runPlant(p Params, pl Plant, idx int, menu int, pv int, shapes int, entries int) {
 	spec := Build(p)
 	expects := pl.Apply(spec)
 	rd := spec.Render()
@@ -665,7 +732,7 @@ func (rn *runner) runPlant(p Params, pl Plant, idx int, menu int, pv int, shapes
 	if pl.Opts != nil {
 		opts = *pl.Opts
 	}
-	info := CaseInfo{Base: p.Key(), Op: pl.Op, Rule: pl.Rule, Site: pl.Site, Opts: opts}
+	info := CaseInfo{Base: p.Key(), Op: pl.Op, Rule: pl.Rule, Site: pl.Site, Opts: opts, useVia: p.UseVia, useSite: p.UseSite}
 	image, err := buildImage(rn.ctx, rd)
 	if err != nil {
 		ci := info
@@ -677,9 +744,26 @@ func (rn *runner) runPlant(p Params, pl Plant, idx int, menu int, pv int, shapes
 		rn.st.mu.Unlock()
 		return
 	}
+	var descImage bufimage.Image
+	if entries > 0 {
+		descImage = rn.descriptorImage(image, "base="+p.Key()+" op="+pl.Op+" site="+pl.Site)
+	}
+	type evalItem struct {
+		use, entry string
+		image      bufimage.Image
+	}
 	for _, t := range rn.tables {
+		var items []evalItem
 		for _, use := range t.usesFor(pl.Rule, rn.r.Quick(), menu, pv, shapes) {
-			cfg, err := newConfig(t, use, opts)
+			items = append(items, evalItem{use, entrySource, image})
+		}
+		if descImage != nil {
+			for _, use := range rn.descriptorUses(t, pl.Rule, menu, entries) {
+				items = append(items, evalItem{use, entryDescriptors, descImage})
+			}
+		}
+		for _, it := range items {
+			cfg, err := newConfig(t, it.use, opts)
 			if err == errNoSuchConfig {
 				continue
 			}
@@ -687,10 +771,13 @@ func (rn *runner) runPlant(p Params, pl Plant, idx int, menu int, pv int, shapes
 				rn.r.Incomplete(err.Error())
 				continue
 			}
-			fired := rn.lintAndJudge(info, rd, image, expects, cfg, pl.Op)
-			rn.countShape(cfg)
+			fired := rn.lintAndJudge(info, rd, it.image, expects, cfg, pl.Op, it.entry)
+			if it.entry == entrySource {
+				rn.countShape(cfg)
+			}
+			selected := cfg.Active[pl.Rule] && !(it.entry == entryDescriptors && rulesBlindUnderDescriptors[pl.Rule])
 			rn.st.mu.Lock()
-			if cfg.Active[pl.Rule] {
+			if selected {
 				rn.st.plantSelected++
 				rn.st.primaryByRule[pl.Rule]++
 				if rn.st.opsByRule[pl.Rule] == nil {
@@ -884,13 +971,21 @@ func plantBases(quick bool) []Params {
 
 func run(r *evid.Run) {
 	ctx := context.Background()
+	// thousands of small compilations: a small live heap and a lot of garbage; the default GC target spends
+	// about a quarter of the CPU time in the collector
+	defer debug.SetGCPercent(debug.SetGCPercent(400))
 	r.Rule("clean part: every member of a parameterised clean-by-construction workspace family (name palette x syntax x comment style x package version x rule-option-dependent shapes x where request/response messages are declared: service's file / other file / other package / nested depth 1-2) x every config version x every category / single rule / all rules; " +
 		"planted part: every (operator, site) of the planting catalogue (>=1 operator per built-in lint rule; sites = every message/enum/field/oneof/enum value/service/RPC/import/package/file of the workspace incl. nested depth 1-2, oneof members, extensions, 2nd file, 2nd package, proto2/proto3/editions files) on each plant base x config version x {all rules, each category, the planted rule alone}; " +
 		"configuration shape: for the first two clean members of every distinct rule-option set, the first instance of every operator and every rule-option plant, the lint block is also written without use key (default rules; incl. every rule option as the only key) and (v2) as the lint block of an explicit module entry, alone or over a contradicting top-level block. " +
+		"import usage: via (the one import names the declaring file / an umbrella file that re-exports it as 1st, 2nd, 3rd `import public` / two levels of `import public`) x reference site (field at depth 0 and 2, map value, oneof member, rpc request / response, extendee top-level / nested, extension type, custom option on file / message / field) x consumer syntax, clean and with an unused import planted (beside the used one, first / last; an umbrella leading to unused files; the reference removed); " +
+		"entry: how the image reaches the linter: built from source, or rebuilt from plain descriptors as protoc-gen-buf-lint does (every clean member, every import-usage case, the first instance of every operator on every base and every instance of the import / syntax operators); " +
+		"CLI binding: input (directory / image written by `buf build -o`) x configuration delivery (--config data / --config file / buf.yaml in the directory) x {all rules v2, v1; no use key in v2, v1, v1beta1} for the clean workspace and every planted rule that is a default rule of some versions only. " +
 		"A distinct non-trivial case is one clean family member or one (base, operator, site) triple; every one of them is a different workspace text.")
 	r.Assume("expected rule IDs and collateral sets are data next to each operator, reviewed against the rules' Purpose strings; which token of the offending element is annotated is fixed per rule (name token for naming rules, declaration start for comment/streaming/uniqueness/package/import/option rules, type token for request/response naming, number token for ENUM_FIRST_VALUE_ZERO)")
 	r.Assume("rule and category membership per config version, and which rules run without a use key (Rule.Default), are read from Client.AllRules (rule selection itself is property C06)")
 	r.Assume("v2: a module entry's non-empty lint block is that module's lint configuration; the module-over-top layout only gives other values to keys the module's block sets itself, so no merge semantics are assumed; one module per workspace")
+	r.Assume("the descriptors entry replays the two bufimage calls of protoc-gen-buf-lint's handler (the handler is unexported) on the CodeGeneratorRequest buf itself would send, after a wire round trip without extension knowledge; plain descriptors do not say whether a syntax statement was present, so SYNTAX_SPECIFIED is not expected under that entry")
+	r.Assume("CLI binding: a buf.yaml without lint key means the default rules of its own version (Rule.Default of Client.AllRules) whatever the input form; module-level lint blocks are not combined with image inputs; the buf.yaml of the process working directory (image input without --config) is not exercised")
 	r.Assume("files use spaces only (no tabs), ASCII identifiers, LF line ends; comment-ignore directives and ignore paths are out of scope (C06); custom plugins are out of scope")
 
 	tables, err := loadRuleTables(ctx)
@@ -925,9 +1020,37 @@ func run(r *evid.Run) {
 		} else if i%10 == 0 {
 			pv = 3
 		}
-		rn.runClean(family[i], single, pv, cleanShapes[i])
+		// every member is also linted the way protoc-gen-buf-lint sees it (entry.go), with all rules in v2
+		rn.runClean(family[i], "", menuFull, single, pv, cleanShapes[i], 1)
 	})
 	r.Set("clean_family_members", len(family))
+
+	// ---- import usage dimension (usage.go): via x reference site x consumer syntax, both entries with the
+	// same menu: {all rules, IMPORT_USED alone} x 3 versions for clean members; the lite menu (quick) / the
+	// same menu (thorough) for the plants
+	usage := usageFamily(r.Quick())
+	r.ParallelFor(len(usage), 0, func(i int) {
+		rn.runClean(usage[i], "IMPORT_USED", menuMedium, false, 0, 0, 2)
+	})
+	var usageJobs []plantJob
+	usageOps := map[string]bool{}
+	for _, p := range usage {
+		for _, pl := range usagePlants(p) {
+			usageJobs = append(usageJobs, plantJob{p, pl})
+			usageOps[pl.Op] = true
+		}
+	}
+	usageMenu := menuMedium
+	if r.Quick() {
+		usageMenu = menuLite
+	}
+	r.ParallelFor(len(usageJobs), 0, func(i int) {
+		rn.runPlant(usageJobs[i].p, usageJobs[i].pl, i, usageMenu, 0, 0, 2)
+	})
+	r.Set("import_usage_members", len(usage))
+	r.Set("import_usage_plant_instances", len(usageJobs))
+	r.Set("import_usage_vias", len(UsageVias))
+	r.Set("import_usage_sites", len(UsageSites))
 
 	// ---- planted part
 	var jobs []plantJob
@@ -978,6 +1101,11 @@ func run(r *evid.Run) {
 	pv := make([]int, len(jobs))
 	menu := make([]int, len(jobs))
 	shapes := make([]int, len(jobs))
+	// The "descriptors" entry (all rules in v2): what differs from the source entry is what buf derives from
+	// the descriptors instead of taking it from the compiler (unused imports, import-ness of files, syntax
+	// statement), so quick spends it on the first instance of every operator on every base and on every
+	// instance of the operators about imports and the syntax statement; thorough on every instance.
+	entries := make([]int, len(jobs))
 	seenOp, seenRule := map[string]bool{}, map[string]bool{}
 	for i, j := range jobs {
 		first := j.p.Key() == bases[0].Key()
@@ -1012,13 +1140,18 @@ func run(r *evid.Run) {
 		case j.pl.Opts != nil && !j.pl.Bulk:
 			shapes[i] = 1
 		}
+		op := j.pl.Op
+		aboutImage := strings.HasPrefix(op, "import-") || strings.HasPrefix(op, "package-import-cycle") || strings.HasPrefix(op, "package-unstable") || op == "file-syntax-dropped"
+		if !j.pl.Heavy && (firstOfOp || aboutImage || !r.Quick()) {
+			entries[i] = 1
+		}
 	}
 	r.ParallelFor(len(jobs), 0, func(i int) {
-		rn.runPlant(jobs[i].p, jobs[i].pl, i, menu[i], pv[i], shapes[i])
+		rn.runPlant(jobs[i].p, jobs[i].pl, i, menu[i], pv[i], shapes[i], entries[i])
 	})
 
 	// ---- CLI binding
-	rn.cliPart(bases[0], Plants(bases[0]))
+	rn.cliPart(bases[0], Plants(bases[0]), bases[1])
 
 	// ---- coverage facts and vacuity guards
 	st := rn.st
@@ -1027,8 +1160,20 @@ func run(r *evid.Run) {
 	if st.cliWithAnnotations == 0 {
 		r.Incomplete("the CLI binding never saw an annotation")
 	}
+	// which version's default rules are in effect: every input form must have been linted without `use` key
+	// in every version with a planted rule that is a default rule of some versions only
+	for _, input := range []string{cliInputDir, cliInputImage} {
+		for _, v := range versions {
+			if st.cliDefaultSensitive[input+"/"+v.name+"/"+noUse] == 0 {
+				r.Incomplete("CLI binding: no version-sensitive planted rule was linted with the default rules of " + v.name + " on a " + input + " input")
+			}
+		}
+	}
 	r.Set("plant_bases", len(bases))
 	r.Set("plant_instances", len(jobs))
+	for op := range usageOps {
+		opSet[op] = true
+	}
 	r.Set("operators", len(opSet))
 	r.Set("clean_evaluations", st.cleanEvals)
 	r.Set("planted_evaluations_rule_selected", st.plantSelected)
@@ -1036,6 +1181,33 @@ func run(r *evid.Run) {
 	r.Set("collateral_expectations_met", st.collateral)
 	r.Set("workspaces_not_building", st.buildFailures)
 	r.Set("evaluations_per_config_shape", st.shapeEvals)
+	r.Set("evaluations_per_entry", st.entryEvals)
+	r.Set("import_usage_evaluations", st.usageEvals)
+	r.Set("cli_runs_per_cell", st.cliCells)
+	r.Set("cli_runs_default_sensitive_rule", st.cliDefaultSensitive)
+	// entry dimension: both entries must have linted clean and planted workspaces, an unused import must have
+	// been found from plain descriptors, and every via / reference site must have been linted under both
+	for _, entry := range []string{entrySource, entryDescriptors} {
+		for _, kind := range []string{"clean", "planted"} {
+			if st.entryEvals[entry+"/"+kind] == 0 {
+				r.Incomplete("entry never exercised: " + entry + "/" + kind)
+			}
+		}
+		if st.entryFired[entry+"/IMPORT_USED"] == 0 {
+			r.Incomplete("no planted unused import was found under entry " + entry)
+		}
+		for _, via := range UsageVias {
+			if st.usageEvals[entry+"/"+via.Name] == 0 {
+				r.Incomplete("import usage never linted: " + entry + " via " + via.Name)
+			}
+		}
+		for _, site := range UsageSites {
+			if st.usageEvals[entry+"/site/"+site.Name] == 0 {
+				r.Incomplete("import usage never linted: " + entry + " reference site " + site.Name)
+			}
+		}
+	}
+	r.Set("expectations_met_per_entry_and_rule", st.entryFired)
 	// google.protobuf.Empty shared by several RPCs under exactly one allowance: 0, 1 and >= 2 usages that
 	// the allowance does not cover must all have been planted (1 is the boundary of "more than one RPC")
 	r.Set("plant_instances_per_class", classCount)
